@@ -124,7 +124,13 @@ class Interp:
                     elif isinstance(l, Sca) and isinstance(rr, Vec):
                         r.den = self._combine(gd(rr), ga(l), sg)
                     else:
-                        r.den = 'mixed' if (gd(l) is not None or gd(rr) is not None) else None
+                        dl, dr = gd(l), gd(rr)
+                        if dl is None or dr is None:
+                            r.den = dr if dl is None else dl          # product of two vectors (sg == 1): denominators multiply
+                        elif isinstance(dl, tuple) and isinstance(dr, tuple) and abs(dl[0] - dr[0]) < 1e-9 and sg == 1:
+                            r.den = (dl[0], dl[1] + dr[1])
+                        else:
+                            r.den = 'mixed'
                 else:
                     al, ar = ga(l), ga(rr)
                     if isinstance(al, tuple) and isinstance(ar, tuple) and abs(al[0] - ar[0]) < 1e-9:
